@@ -45,7 +45,8 @@ THEOREMS = ['C06_indices_first_fastest', 'C06_items_array',
             'C06_array_entry_transformation_refuted',
             'C06_lattice_end_to_end', 'C06_lattice_end_to_end_3d',
             'C06_lattice_end_to_end_1d_2d', 'C06_lattice_end_to_end_linked',
-            'C06_link_inverse_satisfiable', 'C06_fill_array_read_as_mcnp',
+            'C06_link_inverse_satisfiable', 'C06_lattice_end_to_end_conv_linked',
+            'C06_fill_array_read_as_mcnp',
             'C06_parse_fill_kw_flat']
 TRUSTED = [
     'hand-written model coq/C06/Model.v (modelled, tied by execution only)',
